@@ -191,10 +191,25 @@ def fam_store(E, n, flavour, caps=(1, 2, float('inf'))):
     store = {PLAIN: Store, PRIORITY: PriorityStore, FILTER: FilterStore}[flavour](env, capacity=cap)
     registry = {}
 
+    class Part:
+        """items that all compare equal but are told apart by the filters (serial number)"""
+        def __init__(self, serial):
+            self.serial = serial
+
+        def __eq__(self, other):
+            return isinstance(other, Part) or other == self.serial
+
+        def __hash__(self):
+            return 7
+
     def item_of(i):
+        if flavour == FILTER:
+            return Part(i)
         return PriorityItem(prio[i], i) if flavour == PRIORITY else i
 
     def ident(item):
+        if flavour == FILTER and item is not None:
+            return item.serial
         return item.item if flavour == PRIORITY and item is not None else item
 
     def proc(i):
@@ -203,7 +218,7 @@ def fam_store(E, n, flavour, caps=(1, 2, float('inf'))):
         if kinds[i] == 0:
             req = store.put(item_of(i))
         elif flavour == FILTER and want[i] < n:
-            req = store.get(lambda x, j=want[i]: x == j)
+            req = store.get(lambda x, j=want[i]: ident(x) == j)
         else:
             req = store.get()
         registry[id(req)] = (i, req)      # keeps req alive: no id reuse
@@ -212,6 +227,9 @@ def fam_store(E, n, flavour, caps=(1, 2, float('inf'))):
         item = yield req
         log(i, 'resumed', ident(item))
         E.prove(len(store.items) <= cap, 'store-within-capacity')
+        if flavour == FILTER:
+            left = sorted(ident(x) for x in store.items)
+            E.prove(len(set(left)) == len(left), 'each-item-stored-once', ('%r', left))
 
     def accepts(g, item):
         return flavour != FILTER or want[g] >= n or want[g] == item
@@ -434,6 +452,62 @@ def fam_resource(E, n, flavour, cancels=False):
         E.reach('gave-up')
 
 
+def fam_two_resources(E):
+    """a process holding a plain Resource and, nested inside, a PreemptiveResource is preempted
+    on the inner one: leaving both `with` blocks must give back both"""
+    c = E.int('c', 0, 10)             # the urgent request
+    w = E.int('w', 0, 10)             # the colleague asks for the tool
+    hold = E.int('hold', 1, 10)
+    log = Log()
+    env = Environment()
+    tool = Resource(env, capacity=1)
+    machine = PreemptiveResource(env, capacity=1)
+
+    def worker():
+        try:
+            with tool.request() as t:
+                yield t
+                log('wk', 'tool')
+                with machine.request(priority=5) as m:
+                    yield m
+                    log('wk', 'machine')
+                    yield env.timeout(hold)
+                    log('wk', 'done')
+        except Interrupt:
+            log('wk', 'preempted')
+
+    def urgent():
+        yield env.timeout(c)
+        with machine.request(priority=0) as m:
+            yield m
+            log('ur', 'machine')
+            yield env.timeout(1)
+
+    def colleague():
+        yield env.timeout(w)
+        log('co', 'request')
+        with tool.request() as t:
+            yield t
+            log('co', 'tool')
+
+    for p_ in (worker, urgent, colleague):
+        env.process(p_())
+    if not run_env(E, env, log, {}):
+        return
+    E.prove(len(tool.users) == 0 and len(machine.users) == 0, 'everything-released-at-the-end',
+            ('tool users %r, machine users %r', tool.users, machine.users))
+    E.prove(log.has('co', 'tool') and log.has('ur', 'machine'), 'every-request-is-served',
+            ('%r', [e[:2] for e in log.events]))
+    if log.has('wk', 'preempted'):
+        E.reach('preempted')
+        pe, ct = log.first('wk', 'preempted'), log.first('co', 'tool')
+        rq = log.first('co', 'request')
+        if ct is not None and rq is not None:
+            from ..engine import MAX as _MAX
+            E.prove(LE(ct[2], _MAX(pe[2], rq[2])), 'released-resource-is-granted-in-that-time-step',
+                    ('tool released at %r, requested at %r, granted at %r', pe[2], rq[2], ct[2]))
+
+
 # Log needs a helper used above
 def _of_event(self, event):
     return [e for e in self.events if e[1] == event]
@@ -456,6 +530,9 @@ FAMILIES = [
            reach=['item-delivered', 'blocked-filter-passed-over'], bounds='FilterStore'),
     Family('resource', fam_resource, quick=dict(n=3, flavour=FIFO), thorough=dict(n=4, flavour=FIFO),
            reach=['all-granted'], bounds='Resource'),
+    Family('two_resources', fam_two_resources, quick=dict(), thorough=dict(),
+           reach=['preempted'],
+           bounds='nested Resource + PreemptiveResource held by one process that is preempted'),
     Family('resource_cancel', fam_resource, quick=dict(n=3, flavour=FIFO, cancels=True),
            thorough=dict(n=3, flavour=PRIO, cancels=True),
            reach=['gave-up'], bounds='Resource with a request that is cancelled after a patience'),
